@@ -14,18 +14,23 @@ for d in sorted(glob.glob(os.path.join(HERE, 'seeded', '*'))):
     proof = [l for l in out if l.startswith('VIOLATION') and 'bounded' not in l]
     und = [l for l in out if l.startswith('UNDECIDED')]
     vio = [l for l in out if l.startswith('VIOLATION')]
-    if rc == 1:
+    dm = (m.get('confirmed') or {})
+    if dm.get('demo_exit_with_change') == 0:
+        how = 'the change no longer breaks the property on the current /repo (demo passes): check exit %s' % rc
+    elif rc == 1:
         how = 'caught (exit 1): ' + ('obligation ' + ', '.join(sorted({re.sub(r'.*replays/[A-Z0-9]+-', '', l.split('replay=')[1]).split('.json')[0][:60] for l in vio}))[:160] if vio else '')
         if und:
             how += '; %d obligations undecided on the changed code' % len(und)
     elif rc == 0:
-        how = '**missed** (exit 0)'
+        oth = chk.get('other_checks_exit') or {}
+        hit = [k for k, v in oth.items() if str(v) == '1']
+        how = '**missed** (exit 0)' + ('; caught by ./check %s' % ', '.join(hit) if hit else '')
     else:
         how = 'checker error (exit %s): %s' % (rc, (out or [''])[0][:120])
     conf = m.get('confirmed', {})
     rows.append('| %s | %s | %s | %s | demo %s→%s, suite: %s | %s |' % (
-        os.path.basename(d), m.get('property'), (m.get('summary') or '')[:260].replace('|', '/').replace('\n', ' '),
-        (m.get('needs') or '')[:200].replace('|', '/').replace('\n', ' '),
+        os.path.basename(d), m.get('property'), (m.get('summary') or '')[:170].replace('|', '/').replace('\n', ' '),
+        (m.get('needs') or '')[:150].replace('|', '/').replace('\n', ' '),
         conf.get('demo_exit_without_change'), conf.get('demo_exit_with_change'),
         (conf.get('test_suite_with_change') or '').split(',')[0], how.replace('|', '/')))
 table = ['| seed | property | change | needs, to manifest | confirmed | `./check <property>` on the changed tree |',
